@@ -382,11 +382,18 @@ This method is an extension of the original flavors.
 
 type sharedInitializeCaller struct{}
 
-func (caller sharedInitializeCaller) Call(s *slip.Scope, args slip.List, _ int) slip.Object {
+func (caller sharedInitializeCaller) Call(s *slip.Scope, args slip.List, depth int) slip.Object {
 	self := s.Get("self").(*Instance)
 	rest := args[1:]
-	for _, name := range args[0].(slip.List) {
-		sym := name.(slip.Symbol)
+	names, ok := args[0].(slip.List)
+	if !ok {
+		slip.TypePanic(s, depth, "slot-names", args[0], "list")
+	}
+	for _, name := range names {
+		sym, ok := name.(slip.Symbol)
+		if !ok {
+			slip.TypePanic(s, depth, "slot-name", name, "symbol")
+		}
 		if val, has := slip.GetArgsKeyValue(rest, ":"+sym); has {
 			self.Let(sym, val)
 		}
